@@ -86,6 +86,15 @@ def cases(tier, seed):
                         d.update({"time": tm, "fields": FIELDSETS[fi], "extra_ratio": ex, "layout": lays[li],
                                   "payload": "hostile" if (fi + li) % 3 == 0 else "coded", "seed": seed})
                         out.append({"desc": d})
+    # index spaces that do not start at cell 0 (AMReX allows any domain box): a positive and a negative first cell
+    for nd in (2, 3):
+        m = scope.named_meshes(nd)[2]
+        for sh in ([8, 16, 0][:nd], [-2, -2, -2][:nd]):
+            d = dict(m)
+            d.update(list(scope.geometries(nd))[1])
+            d.update({"time": 0.5, "fields": ["temp", "density"], "extra_ratio": 0, "layout": [scope.layouts(len(b), 'idrev')[-1] for b in m["levels"]],
+                      "payload": "coded", "seed": seed, "index_shift": sh})
+            out.append({"desc": d})
     # four of the plotfiles (2D / 3D, fewest and most levels) are also opened by interpreters started with -O and -OO
     marks = {}
     for i, c in enumerate(out):
@@ -170,8 +179,10 @@ def check_open(rec, sub, pck, ref, desc, path, limit, header_only, maxmins, pars
         if len(c["indexes"]) != nb or len(c["files"]) != nb or len(c["offsets"]) != nb:
             bad("cells", "level %d counts" % lv)
             continue
+        sh_ = [s_ * 2 ** lv for s_ in (desc.get("index_shift") or [0] * nd)]
         for b in range(nb):
             lo, hi = ref.boxes[lv][b]
+            lo, hi = tuple(a + s_ for a, s_ in zip(lo, sh_)), tuple(a + s_ for a, s_ in zip(hi, sh_))
             if tuple(int(v) for v in c["indexes"][b][0]) != lo or tuple(int(v) for v in c["indexes"][b][1]) != hi:
                 bad("indexes", "level %d box %d: %r" % (lv, b, c["indexes"][b]))
             expf = os.path.join(pl.dir, pl.files[b])
@@ -347,4 +358,11 @@ def run_case(case, workdir):
     return rec.result()
 
 
-SIGNATURES = {}
+def _sig_shifted(case, fail):
+    """the reader takes the number of cells of a level from the UPPER domain index alone (hi + 1): with a domain box that does
+    not start at 0 the grid sizes and the cell-centre grids are wrong, and a negative upper index makes the opening fail"""
+    sh = (case.get("desc") or {}).get("index_shift")
+    return bool(sh) and any(sh) and fail["clause"] in ("grid_sizes", "grids", "open_raised")
+
+
+SIGNATURES = {"index_space_not_starting_at_zero": _sig_shifted}
